@@ -523,6 +523,14 @@ def _report(run, rp, stage, events, meta, viol, models_of):
 
 def main(tier):
     run = Run("C14", tier)
+    try:
+        return _main(run, tier)
+    except BaseException:
+        run.cleanup()       # scratch directories must not outlive a machinery error
+        raise
+
+
+def _main(run, tier):
     sd = seed()
     rng = random.Random(sd)
     codec.build()
@@ -594,6 +602,9 @@ def main(tier):
                 plan_cmp["examples"].append({"history": list(h), "step": ev["i"], "plan": pred, "observed": obs})
         if obs:
             exposed_steps += 1
+        if ev["i"] >= 2 and (obs or pred):
+            # a step with a predecessor in the same process that the design model marks as exposed to (or that was
+            # observed reading) state of an earlier step
             run.nontrivial(h[:ev["i"]])
         if (ev["t"], ev["i"]) in bad_steps:
             deviating += 1
@@ -649,8 +660,9 @@ def main(tier):
                        "P;X (P = the previous network, other accelerator/options)"
                        + (", X;P;X, convert_bytes twice" if tier == "thorough" else "")
                        + ". One fresh interpreter per history. evaluations = interpreters run; non-trivial = distinct "
-                       "history prefixes whose last step was observed to read state written by an earlier step "
-                       "(stale weight-cache hit, stale equivalence id, address assigned to an id that already had one)")
+                       "history prefixes whose last step has a predecessor in the process and is, according to the design "
+                       "model's replay plan or by observation, exposed to state written by an earlier step (weight cache, "
+                       "value-keyed equivalence id, address map)")
     run.assumptions += ["the isolated reference of a step is the same entry point, model and options compiled alone under "
                         "PYTHONHASHSEED=0 in a fresh interpreter",
                         "failures are compared by exception class and first line of the message with numbers masked",
